@@ -19,6 +19,15 @@ CLAIMED = {
          "(layout from docs/xml.md) on the real text and by the extracted decoder written from docs/xml.md (Spec/XmlSpec.v); reader direction by documents of an independent writer (UUID referents, shuffled properties, Meta/External, CDATA, "
          "wrapped base64, alternative float spellings, dictionary first) against the logical DOM they describe.", "5/C05, notes/xml-format.md",
          "Agreement of xspec_decode with xml_encode for arbitrary DOMs is not proved (checked per case); same oracle-table / xml-rs / size-cap assumptions as C02."),
+ "C03": ("An independent codec written from docs/binary.md only (Spec/BinSpec.v, with its own LZ4 block decoder Spec/Lz4.v) is proved to round-trip with itself for every well-formed logical file, every per-chunk compression choice "
+         "{none, LZ4-literal}, either rotation choice and all 31 documented types (bspec_roundtrip, bs_col_roundtrip), its successful decode is proved to imply the structural clauses (header counts, unique class ids, one PRNT, one value "
+         "per instance, chunk lengths, uncompressed END holding </roblox>), and the LZ4 decoder is total. Extracted, it decodes every file the real serializer writes (3 compression modes; zstd inflated by the crate) and the result is "
+         "compared with the source DOM; the remaining clauses (PRNT lists every instance once children-first, SSTR distinct, class names distinct) are evaluated per file.", "5/C03",
+         "The document is followed where it and the implementation differ: those differences are listed as known findings (doc-*). Zstandard inflation uses the zstd crate (not independent)."),
+ "C04": ("The same independent specification, used as an encoder: bspec_encode with `choices` (compression per chunk incl. real LZ4/Zstd re-framing, chunk order, sparse/negative referents and class ids, PRNT row order, META/unknown chunks, "
+         "service format, narrower numeric columns, PROP ending after its name, unknown type ids) produces files that are fed to the real rbx_binary::from_reader and compared with the DOM the logical file describes; the spec's own "
+         "round trip is proved (see C03); widening Int32->Int64 and Float32->Float64 is proved on the binary reader model (col_widen_*).", "5/C04",
+         "bspec_roundtrip is proved for the canonical chunk order; other orders are covered by the per-case self round trip. Readings of the document where it is ambiguous are explicit parameters (bs_reading)."),
  "C06": ("Schema level proved: both codecs' descriptor lookups agree on every coherent database (same canonical and serialized descriptor; only DoesNotSerialize differs), and the bundled database is coherent (regenerated and re-proved every run). "
          "Value level decided per case on the implementation: DOMs inside the property's quantifier are written by rbx_binary and rbx_xml, read back by both real readers and the two decoded DOMs compared instance by instance.", "5/C06",
          "PARTIAL: the value-level agreement of the two decoders is exercised, not proved (it would be the composition of the C01 and C02 forest theorems, which are not proved at forest level)."),
